@@ -140,8 +140,14 @@ def run_suites(pid, suites, tier, seed, vh, known, evidence):
                 violations.append((suite, op, i, m, v.note))
                 nv += 1
             elif not v.agree:
-                disagreements.append((suite, op, i, m, v.note))
-                nd += 1
+                if known is not None and _match_known(pid, known, suite, op, i, m):
+                    # a listed finding that shows as a difference between implementation and model (the model cannot predict what the
+                    # kernel does there) rather than as a violated clause: reported as that finding
+                    violations.append((suite, op, i, m, v.note))
+                    nv += 1
+                else:
+                    disagreements.append((suite, op, i, m, v.note))
+                    nd += 1
         if ops:
             k = rng.randrange(len(ops))
             samples.append({"suite": suite.name, "op": _trunc(ops[k]), "impl": _trunc(impl[k]), "model": _trunc(model[k])})
